@@ -18,6 +18,7 @@ import OpmVerif.Proofs.Connections
 import OpmVerif.Proofs.ConnectionsOrder
 import OpmVerif.Proofs.ConnectionsIdentity
 import OpmVerif.Proofs.PeacemanExamples
+import OpmVerif.Proofs.ConnectionsLayers
 
 namespace OpmVerif.Props.C06
 open OpmVerif.Peaceman OpmVerif.Conns
@@ -272,6 +273,153 @@ example : Conns.Ex.cs[1]? = some Conns.Ex.c2 ∧ Conns.Ex.c2.at 0 0 1 = true ∧
 taking the new state, direction and factor. -/
 example : ((upsert 1 Conns.Ex.cs Conns.Ex.newLayer2).map fun c => (c.complnum, c.sortValue, c.state, c.ctf.CF))
     = [(1, 0, .OPEN, 10), (2, 1, .SHUT, 10), (3, 2, .OPEN, 10)] := by decide
+
+/-! ### Records over several layers (K1 < K2) -/
+
+/-- A COMPDAT record K1..K2 has exactly the effect of the one-layer records K1..K1, …, K2..K2
+(all other items the same) entered in this order — for every grid (inactive cells included),
+every list of connections already present (cells re-entered or new) and every K range. -/
+theorem compdat_multilayer_eq_per_layer [Add α] [Sub α] [Mul α] [Div α] [LT α] [DecidableLT α]
+    (F : Fns α) (one : α) (grid : Grid α) (headI headJ : Int) (r : CompdatRec α) (cs : List (Conn α)) :
+    loadCompdat F one grid headI headJ r cs =
+      (layers r.k1 r.k2).foldl (fun acc k => loadCompdat F one grid headI headJ (r.layer k) acc) cs :=
+  loadCompdat_eq_per_layer F one grid headI headJ r cs
+
+/-- `layers K1 K2` are the 0-based layers K1 − 1, …, K2 − 1, each once. -/
+theorem compdat_layers (k1 k2 k : Int) :
+    (k ∈ layers k1 k2 ↔ k1 - 1 ≤ k ∧ k ≤ k2 - 1) ∧ (layers k1 k2).Nodup ∧ layers (k + 1) (k + 1) = [k] :=
+  ⟨mem_layers k1 k2 k, layers_nodup k1 k2, layers_single k⟩
+
+/-- Non-vacuity: a fully defaulted record over layers 1..4 of a column whose cells differ in
+every layer (layer 2 inactive), on a well that already has connections in layers 1..3: layers
+1 and 3 are replaced in place, the connection in the inactive layer 2 stays, layer 4 is
+appended; Kh and r0 differ from layer to layer; and this is what the four one-layer records
+give. -/
+example : layers 1 4 = [0, 1, 2, 3] ∧
+    ((loadCompdat Conns.Ex.fnsLayers 1 Conns.Ex.gridVar 0 0 Conns.Ex.rec14 Conns.Ex.cs).map
+        fun c => (c.k, c.complnum, c.ctf.Kh, c.ctf.r0, c.depth))
+      = [(0, 1, 4, 252, 100), (1, 2, 20, 5, 110), (2, 3, 24, 448, 120), (3, 4, 40, 448, 130)] ∧
+    loadCompdat Conns.Ex.fnsLayers 1 Conns.Ex.gridVar 0 0 Conns.Ex.rec14 Conns.Ex.cs =
+      [0, 1, 2, 3].foldl (fun acc k => loadCompdat Conns.Ex.fnsLayers 1 Conns.Ex.gridVar 0 0 (Conns.Ex.rec14.layer k) acc)
+        Conns.Ex.cs := by decide
+
+/-- After a COMPDAT record K1..K2 the connection in the active cell of layer `k`
+(K1 − 1 ≤ k ≤ K2 − 1) carries `ctfOf F r.inp cell` — the connection factors of the record's
+items and of the cell of *this* layer — together with this cell's depth and the record's state
+and direction.  No quantity computed for another layer of the record enters (in particular
+not the Peaceman radius of the first layer), whatever was in the list before. -/
+theorem compdat_layer_has_own_cell_values [Add α] [Sub α] [Mul α] [Div α] [LT α] [DecidableLT α]
+    (F : Fns α) (one : α) (grid : Grid α) (headI headJ : Int) (r : CompdatRec α)
+    (cs : List (Conn α)) (k : Int) (hk : k ∈ layers r.k1 r.k2) (cell : Cell α) (depth : α)
+    (hg : grid (if r.iRaw = 0 then headI else r.iRaw - 1) (if r.jRaw = 0 then headJ else r.jRaw - 1) k
+            = some (cell, depth)) :
+    ∃ c, (loadCompdat F one grid headI headJ r cs).find?
+            (fun c => c.at (if r.iRaw = 0 then headI else r.iRaw - 1) (if r.jRaw = 0 then headJ else r.jRaw - 1) k)
+          = some c ∧
+      c.ctf = ctfOf F r.inp cell ∧ c.depth = depth ∧ c.state = r.state ∧ c.dir = r.inp.dir ∧
+      c.fromDeck = ctfFromDeck F r.inp :=
+  loadCompdat_layer_own_cell F one grid headI headJ r cs k hk cell depth hg
+
+/-- Non-vacuity: layer 3 (k = 2) of the record above, cell 5 × 4 × 4 with PERMX 3. -/
+example : (2 : Int) ∈ layers Conns.Ex.rec14.k1 Conns.Ex.rec14.k2 ∧
+    Conns.Ex.gridVar (if Conns.Ex.rec14.iRaw = 0 then 0 else Conns.Ex.rec14.iRaw - 1)
+        (if Conns.Ex.rec14.jRaw = 0 then 0 else Conns.Ex.rec14.jRaw - 1) 2
+      = some (⟨⟨5, 4, 4⟩, ⟨3, 2, 3⟩, 1⟩, 120) := ⟨by decide, rfl⟩
+
+/-- The same as a locality statement: two grids that agree in the cell of layer `k` — and are
+arbitrary in every other layer and column — and two arbitrary earlier connection lists give
+layer `k` the same connection factors and depth. -/
+theorem compdat_layer_local [Add α] [Sub α] [Mul α] [Div α] [LT α] [DecidableLT α]
+    (F : Fns α) (one : α) (grid grid' : Grid α) (headI headJ : Int) (r : CompdatRec α)
+    (cs cs' : List (Conn α)) (k : Int) (hk : k ∈ layers r.k1 r.k2) (cell : Cell α) (depth : α)
+    (hg : grid (if r.iRaw = 0 then headI else r.iRaw - 1) (if r.jRaw = 0 then headJ else r.jRaw - 1) k
+            = some (cell, depth))
+    (hg' : grid' (if r.iRaw = 0 then headI else r.iRaw - 1) (if r.jRaw = 0 then headJ else r.jRaw - 1) k
+            = some (cell, depth)) :
+    ∃ c c', (loadCompdat F one grid headI headJ r cs).find?
+              (fun c => c.at (if r.iRaw = 0 then headI else r.iRaw - 1) (if r.jRaw = 0 then headJ else r.jRaw - 1) k)
+            = some c ∧
+          (loadCompdat F one grid' headI headJ r cs').find?
+              (fun c => c.at (if r.iRaw = 0 then headI else r.iRaw - 1) (if r.jRaw = 0 then headJ else r.jRaw - 1) k)
+            = some c' ∧
+          c.ctf = c'.ctf ∧ c.depth = c'.depth :=
+  loadCompdat_layer_local F one grid grid' headI headJ r cs cs' k hk cell depth hg hg'
+
+/-- Non-vacuity: `gridVar'` has other cells than `gridVar` in layers 1, 2 and 4 (so the layers
+above and below layer 3 get other factors: Kh 4 ≠ 175 in layer 1) and the same cell in layer 3. -/
+example : Conns.Ex.gridVar 0 0 2 = Conns.Ex.gridVar' 0 0 2 ∧
+    ((Conns.Ex.gridVar 0 0 0).map fun p => p.2) ≠ ((Conns.Ex.gridVar' 0 0 0).map fun p => p.2) ∧
+    ((loadCompdat Conns.Ex.fnsLayers 1 Conns.Ex.gridVar' 0 0 Conns.Ex.rec14 []).map
+        fun c => (c.k, c.ctf.Kh, c.ctf.r0)) = [(0, 175, 1372), (1, 175, 1372), (2, 24, 448), (3, 175, 1372)] :=
+  ⟨rfl, by decide, by decide⟩
+
+/-! Over ℝ: every layer of a record with CF, Kh and r0 defaulted gets the text-book Kh and Peaceman
+radius of the cell of *that* layer (composition of `compdat_layer_has_own_cell_values` with
+`defaults_are_peaceman_X/Y/Z`). -/
+
+/-- Vertical record over layers K1..K2: the connection of layer `k` has `Kh = √(kx·ky)·dz·NTG` and the
+Peaceman radius of dx, dy, kx, ky — all of the cell of layer `k`. -/
+theorem compdat_layer_defaults_Z (grid : Grid ℝ) (headI headJ : Int) (r : CompdatRec ℝ) (cs : List (Conn ℝ))
+    (k : Int) (hk : k ∈ layers r.k1 r.k2) (dx dy dz kx ky kz ntg depth : ℝ)
+    (hg : grid (if r.iRaw = 0 then headI else r.iRaw - 1) (if r.jRaw = 0 then headJ else r.jRaw - 1) k
+            = some (⟨⟨dx, dy, dz⟩, ⟨kx, ky, kz⟩, ntg⟩, depth))
+    (hdir : r.inp.dir = .Z) (hdef : AllDefaulted r.inp) (hkx : 0 ≤ kx) (hky : 0 ≤ ky) :
+    ∃ c, (loadCompdat realFns 1 grid headI headJ r cs).find?
+            (fun c => c.at (if r.iRaw = 0 then headI else r.iRaw - 1) (if r.jRaw = 0 then headJ else r.jRaw - 1) k)
+          = some c ∧
+      c.ctf.Kh = Real.sqrt (kx * ky) * (dz * ntg) ∧
+      c.ctf.r0 = 0.28 * Real.sqrt (Real.sqrt (ky / kx) * dx ^ 2 + Real.sqrt (kx / ky) * dy ^ 2) /
+                   ((kx / ky) ^ (1 / 4 : ℝ) + (ky / kx) ^ (1 / 4 : ℝ)) :=
+  layer_defaults_Z grid headI headJ r cs k hk dx dy dz kx ky kz ntg depth hg hdir hdef hkx hky
+
+/-- Non-vacuity: the fully defaulted real record over layers 1..3 on a column whose DZ and PERMX
+grow with the layer; layer 2 (k = 1) has the 3 × 4 × 3 cell with PERMX 2. -/
+example : (1 : Int) ∈ layers Conns.Ex.recR.k1 Conns.Ex.recR.k2 ∧
+    Conns.Ex.gridRVar (if Conns.Ex.recR.iRaw = 0 then 0 else Conns.Ex.recR.iRaw - 1)
+        (if Conns.Ex.recR.jRaw = 0 then 0 else Conns.Ex.recR.jRaw - 1) 1
+      = some (⟨⟨3, 4, 2 + ((1 : Int) : ℝ)⟩, ⟨1 + ((1 : Int) : ℝ), 1, 1⟩, 1⟩, 100 + 10 * ((1 : Int) : ℝ)) ∧
+    Conns.Ex.recR.inp.dir = .Z ∧ AllDefaulted Conns.Ex.recR.inp ∧ (0 : ℝ) ≤ 1 + ((1 : Int) : ℝ) :=
+  ⟨by decide, rfl, rfl, Ex.dflt_all, by norm_num⟩
+
+/-- Record along X over layers K1..K2: `Kh = √(ky·kz)·dx`, radius from dy, dz·NTG, ky, kz of the cell
+of layer `k` (this is where a layer-dependent DZ or NTG enters the radius). -/
+theorem compdat_layer_defaults_X (grid : Grid ℝ) (headI headJ : Int) (r : CompdatRec ℝ) (cs : List (Conn ℝ))
+    (k : Int) (hk : k ∈ layers r.k1 r.k2) (dx dy dz kx ky kz ntg depth : ℝ)
+    (hg : grid (if r.iRaw = 0 then headI else r.iRaw - 1) (if r.jRaw = 0 then headJ else r.jRaw - 1) k
+            = some (⟨⟨dx, dy, dz⟩, ⟨kx, ky, kz⟩, ntg⟩, depth))
+    (hdir : r.inp.dir = .X) (hdef : AllDefaulted r.inp) (hky : 0 ≤ ky) (hkz : 0 ≤ kz) :
+    ∃ c, (loadCompdat realFns 1 grid headI headJ r cs).find?
+            (fun c => c.at (if r.iRaw = 0 then headI else r.iRaw - 1) (if r.jRaw = 0 then headJ else r.jRaw - 1) k)
+          = some c ∧
+      c.ctf.Kh = Real.sqrt (ky * kz) * dx ∧
+      c.ctf.r0 = 0.28 * Real.sqrt (Real.sqrt (kz / ky) * dy ^ 2 + Real.sqrt (ky / kz) * (dz * ntg) ^ 2) /
+                   ((ky / kz) ^ (1 / 4 : ℝ) + (kz / ky) ^ (1 / 4 : ℝ)) :=
+  layer_defaults_X grid headI headJ r cs k hk dx dy dz kx ky kz ntg depth hg hdir hdef hky hkz
+
+example : (1 : Int) ∈ layers Conns.Ex.recR.k1 Conns.Ex.recR.k2 ∧
+    ({ Conns.Ex.recR with inp := { Ex.dflt with dir := .X } } : CompdatRec ℝ).inp.dir = .X ∧
+    AllDefaulted ({ Conns.Ex.recR with inp := { Ex.dflt with dir := .X } } : CompdatRec ℝ).inp :=
+  ⟨by decide, rfl, Ex.dflt_all⟩
+
+/-- Record along Y over layers K1..K2: `Kh = √(kx·kz)·dy`, radius from dx, dz·NTG, kx, kz of the cell
+of layer `k`. -/
+theorem compdat_layer_defaults_Y (grid : Grid ℝ) (headI headJ : Int) (r : CompdatRec ℝ) (cs : List (Conn ℝ))
+    (k : Int) (hk : k ∈ layers r.k1 r.k2) (dx dy dz kx ky kz ntg depth : ℝ)
+    (hg : grid (if r.iRaw = 0 then headI else r.iRaw - 1) (if r.jRaw = 0 then headJ else r.jRaw - 1) k
+            = some (⟨⟨dx, dy, dz⟩, ⟨kx, ky, kz⟩, ntg⟩, depth))
+    (hdir : r.inp.dir = .Y) (hdef : AllDefaulted r.inp) (hkx : 0 ≤ kx) (hkz : 0 ≤ kz) :
+    ∃ c, (loadCompdat realFns 1 grid headI headJ r cs).find?
+            (fun c => c.at (if r.iRaw = 0 then headI else r.iRaw - 1) (if r.jRaw = 0 then headJ else r.jRaw - 1) k)
+          = some c ∧
+      c.ctf.Kh = Real.sqrt (kx * kz) * dy ∧
+      c.ctf.r0 = 0.28 * Real.sqrt (Real.sqrt (kz / kx) * dx ^ 2 + Real.sqrt (kx / kz) * (dz * ntg) ^ 2) /
+                   ((kx / kz) ^ (1 / 4 : ℝ) + (kz / kx) ^ (1 / 4 : ℝ)) :=
+  layer_defaults_Y grid headI headJ r cs k hk dx dy dz kx ky kz ntg depth hg hdir hdef hkx hkz
+
+example : (1 : Int) ∈ layers Conns.Ex.recR.k1 Conns.Ex.recR.k2 ∧
+    ({ Conns.Ex.recR with inp := { Ex.dflt with dir := .Y } } : CompdatRec ℝ).inp.dir = .Y ∧
+    AllDefaulted ({ Conns.Ex.recR with inp := { Ex.dflt with dir := .Y } } : CompdatRec ℝ).inp :=
+  ⟨by decide, rfl, Ex.dflt_all⟩
 
 /-- WPIMULT with a connection selection: position by position, selected connections get CF
 and the multiplier scaled and nothing else, all others are unchanged; length preserved. -/
